@@ -1,6 +1,7 @@
 package c16
 
 import (
+	"crypto/sha256"
 	"fmt"
 	"os"
 	"path/filepath"
@@ -33,7 +34,11 @@ type workItem struct {
 	procs    int // runner parallelism
 	prep     func() (discard string, err error)
 	// originOf, if set, refines origin and kind per package (workspace layers)
-	originOf        func(pkgID string) (origin, kind string)
+	originOf func(pkgID string) (origin, kind string)
+	// watch: hash every Go file below this directory before and after the load;
+	// files that other processes changed in between are not judged
+	watch           string
+	changed         map[string]bool
 	collectBaseline bool            // fill baselineFailed from layer "base" of the same load
 	baselineFailed  map[string]bool // variant: (layer-free) package IDs that fail unmodified as well
 	// maxFixesPerCheck bounds the fixes re-type-checked per (package, check); 0 = all
@@ -122,7 +127,26 @@ func processItem(l *linter, it workItem, pool int) *itemResult {
 	}
 	cfg := &packages.Config{Dir: it.dir, Tests: it.tests, Env: it.env, Overlay: it.overlay}
 	t0 := time.Now()
+	var before map[string][sha256.Size]byte
+	if it.watch != "" {
+		before = hashGoFiles(it.watch)
+	}
 	pkgs, failed, err := l.lint(cfg, it.patterns, it.procs)
+	if it.watch != "" {
+		it.changed = map[string]bool{}
+		after := hashGoFiles(it.watch)
+		for p, h := range after {
+			if before[p] != h {
+				it.changed[p] = true
+			}
+		}
+		for p := range before {
+			if _, ok := after[p]; !ok {
+				it.changed[p] = true
+			}
+		}
+		res.counters["corpus_files_changed_by_others_during_load"] += len(it.changed)
+	}
 	if debug {
 		fmt.Fprintf(os.Stderr, "c16: lint %s: %d pkgs, %d failed, %.1fs\n", it.origin, len(pkgs), len(failed), time.Since(t0).Seconds())
 		defer func() { fmt.Fprintf(os.Stderr, "c16: done %s: %.1fs\n", it.origin, time.Since(t0).Seconds()) }()
@@ -214,6 +238,10 @@ func processPackage(it workItem, p pkgResult) *itemResult {
 	}
 	perCheckFixes := map[string]int{}
 	for _, d := range p.Diags {
+		if it.changed[d.Position.Filename] {
+			res.counters["diagnostics_skipped:file-changed-during-load"]++
+			continue
+		}
 		res.counters["diagnostics"]++
 		res.stat(d.Category).Diagnostics++
 		// monitor A
@@ -256,7 +284,7 @@ func processPackage(it workItem, p pkgResult) *itemResult {
 				res.counters["fixes_skipped:"+o.skipped]++
 			}
 			if o.key != "" {
-				if f := ctx.files[o.replay.File]; f != nil && len(f.src) < 6000 {
+				if f := ctx.files[o.replay.File]; f != nil && len(f.src) < 20000 {
 					o.replay.Source = string(f.src)
 				}
 				res.viols = append(res.viols, violation{o.key, o.what, o.replay})
@@ -278,6 +306,30 @@ func processPackage(it workItem, p pkgResult) *itemResult {
 		}
 	}
 	return res
+}
+
+// hashGoFiles hashes every Go file below dir (the shared /repo can be edited
+// by others while it is being analysed; content, not time, decides).
+func hashGoFiles(dir string) map[string][sha256.Size]byte {
+	out := map[string][sha256.Size]byte{}
+	filepath.WalkDir(dir, func(p string, d os.DirEntry, err error) error {
+		if err != nil {
+			return nil
+		}
+		if d.IsDir() {
+			if n := d.Name(); n == ".git" || n == "testdata" || n == "website" {
+				return filepath.SkipDir
+			}
+			return nil
+		}
+		if strings.HasSuffix(p, ".go") {
+			if b, err := os.ReadFile(p); err == nil {
+				out[p] = sha256.Sum256(b)
+			}
+		}
+		return nil
+	})
+	return out
 }
 
 // ---------------------------------------------------------------------------
@@ -364,6 +416,12 @@ func Run(r *vf.Run) {
 	}
 	W := workers()
 	acc := newItemResult()
+	r.Assume("diagnostics and edits in files that carry //line directives (and positions that only fail in a package containing such a file, e.g. cgo output) are counted and skipped, as the property allows")
+	r.Assume("a position at end of file is accepted on whatever line go/token puts it")
+	r.Assume("import fix-up = drop imports go/types reports as unused in the patched file + import a package (already a dependency, or std) that the new text names by its default name; nothing else is repaired")
+	r.Assume("S1012, S1024, S1037 (time), QF1009 and QF1010 (the rewrite changes meaning by design) are compiled after the fix but not compared")
+	r.Assume("S1001/S1018 (loop → copy): calls on which the unfixed loop itself panics with an index error are outside the rewrite's precondition and are not compared; panics introduced by the fix are")
+	r.Assume("a behaviour template that does not trigger its check is counted, not a violation; only packages the real loader accepts are under obligation")
 	only := os.Getenv("C16_ONLY") // development: comma list of testdata,variants,corpus,behaviour
 	want := func(s string) bool { return only == "" || strings.Contains(only, s) }
 
@@ -378,7 +436,7 @@ func Run(r *vf.Run) {
 			layers = append(layers, wsLayer{name: "base", dirs: dirs})
 		}
 		if want("variants") {
-			nVar := r.Pick(10, 48)
+			nVar := r.Pick(10, 24)
 			fc := fixChecks()
 			for v := 0; v < nVar; v++ {
 				kind := variantKinds[v%len(variantKinds)]
@@ -416,14 +474,12 @@ func Run(r *vf.Run) {
 			}
 			return fmt.Sprintf("variant %s (%s) of %s", layer, kindOf[layer], gen), "variant"
 		}
-		// unmodified packages that fail to load are never discards of a variant:
-		// find them with a cheap go/packages-free rule — they fail in layer
-		// "base" of the same run (the base layer is always built for that purpose)
 		ws := newItemResult()
 		items := workspaceItems(mods, W, originOf, nil)
 		if want("variants") {
-			// two passes are not needed: a failing base package has the same
-			// generic ID as its variants, so collect failures first per item
+			// a variant package that fails to load is a generator discard unless
+			// the unmodified package (layer "base" of the same load, same
+			// layer-free ID) fails as well
 			for i := range items {
 				items[i].baselineFailed = map[string]bool{}
 				items[i].collectBaseline = true
@@ -452,15 +508,20 @@ func Run(r *vf.Run) {
 
 	// --- A+B on real code: the repository and std ----------------------------
 	if want("corpus") {
-		it := workItem{origin: "repo+std", kind: "corpus", dir: repoDir, env: vf.GoEnv(), procs: W, maxFixesPerCheck: r.Pick(4, 40)}
+		env := append(vf.GoEnv(), fmt.Sprintf("GOMAXPROCS=%d", W))
+		it := workItem{origin: "repo+std", kind: "corpus", dir: repoDir, watch: repoDir, env: env, procs: W, maxFixesPerCheck: r.Pick(4, 40)}
+		items := []workItem{it}
 		if r.Thorough() {
-			it.patterns = []string{"./...", "std"}
-			it.tests = true
+			// the repository with its tests, all of std without
+			items[0].origin, items[0].patterns, items[0].tests = "repo", []string{"./..."}, true
+			std := it
+			std.origin, std.patterns = "std", []string{"std"}
+			items = append(items, std)
 		} else {
-			it.patterns = append([]string{"./..."}, stdSlice...)
+			items[0].patterns = append([]string{"./..."}, stdSlice...)
 		}
 		cr := newItemResult()
-		runItems(r, l, []workItem{it}, 1, W, cr)
+		runItems(r, l, items, 1, W, cr)
 		acc.merge(cr)
 	}
 
